@@ -118,9 +118,9 @@ def _val(v):
     return str(v)
 
 
-def run_specs(specs, tier="quick", seed=0, jobs=None):
+def run_specs(specs, tier="quick", seed=0, jobs=None, prog=None):
     global _PROG, _SPECS, _TIER, _SEED
-    _PROG = Program()
+    _PROG = prog or Program()
     _SPECS = specs
     _TIER = tier
     _SEED = seed
